@@ -22,7 +22,8 @@ RULE = ('E1 enumeration of LAT=2 decks: regular hexagons (2 pitches x 3 rotation
 ASSUMPTIONS = [
     'MCNP hexagonal lattice convention: [1,0,0] beyond the 1st listed plane, [0,1,0] beyond the 3rd, '
     '[-1,1,0] beyond the 5th or 6th (the last two side planes may be listed in either order), [0,0,1] beyond the 7th',
-    'the 3rd listed plane is adjacent to the 1st (the only listings MCNP accepts)',
+    'the 3rd listed plane is adjacent to the 1st (the usual listing) or two sides further on; in both cases '
+    'a2 is the translation across it, as the property states',
     'a LAT=2 cell bounded by an RHP/HEX macrobody takes the facets in their numbering as the listed planes '
     '(a1 = 2r, a2 = 2s, a3 = h); for the 9-entry form s is r turned by +60 degrees about h',
 ]
@@ -110,8 +111,12 @@ def build(ch, allow_far=False):
         t = q - p
         n = np.array([t[1], -t[0]]); n /= np.linalg.norm(n)
         sides.append((n, n @ p))
-    order = [start, (start + 3) % 6, (start + chir) % 6, (start + chir + 3) % 6,
-             (start + 2 * chir) % 6, (start + 2 * chir + 3) % 6]
+    # the third-listed plane is usually a neighbour of the first (a1, a2 at 60 degrees); listed two sides further
+    # on, a1 and a2 are at 120 degrees and generate the same lattice of translations
+    step = ch.choose('third-plane', [1, 2])
+    other = 3 - step
+    order = [start, (start + 3) % 6, (start + step * chir) % 6, (start + step * chir + 3) % 6,
+             (start + other * chir) % 6, (start + other * chir + 3) % 6]
     if swap56:
         order[4], order[5] = order[5], order[4]
     lits, listed = [], []
@@ -285,7 +290,7 @@ def build_replica(ch):
 
 def scenarios(tier):
     q = tier == 'quick'
-    return [Scn('hex', build_single, 3 if q else 4, 4, 'one lattice; all choices costed; deviation-bounded'),
+    return [Scn('hex', build_single, 2 if q else 4, 4, 'one lattice; all choices costed; deviation-bounded'),
             Scn('hex-macrobody', build_macro, 2 if q else None, None,
                 'lattice cell bounded by an RHP / HEX macrobody (9 and 15 entries, both senses, stretched)'),
             Scn('hex-replica', build_replica, 1 if q else 2, 2,
